@@ -2,6 +2,7 @@
 reference decoder (refbin.py, written from docs/binary.md) and checked structurally and by value
 against the statement-derived expected dump. No rbx_binary code is involved."""
 import hashlib, json, os, sys
+sys.setrecursionlimit(20000)  # trees of the size scenarios are hundreds of levels deep
 
 sys.path.insert(0, os.path.dirname(os.path.dirname(os.path.abspath(__file__))))
 import refbin, refattr  # noqa: E402
